@@ -40,6 +40,15 @@ CHECKS["C10"] = ("fwsim", "exploration", "deterministic simulation: differential
 CHECKS["C06"] = ("drawspace", "fault_enumeration", "deterministic simulation with exhaustive enumeration of the random-source seam: all 2^23 uniform draws injected per probability vector",
    "Per generated probability vector the complete space of the uniform draw is injected through the simulated random source and the chosen targets counted against exact rational thresholds; a stratified subset also goes through Framework::trigger_events. Exhaustive per vector, sampled across vectors.",
    "Assumes the draw is the top 23 bits of one 32-bit word (rand 0.8 f32 gen_range). Non-dyadic vectors get a tolerance of one grid step per target for legitimate rounding of partial sums.", "DESIGN.md §6 C06")
+CHECKS["C14"] = ("simsut", "exploration", "deterministic simulation of the repo simulator as SUT: fault-free network baseline over generated traces, tie schedules and delays",
+   "Machine-less simulations of generated traces must reproduce exactly the input send/receive times on the client and the delay-shifted mirror on the server, through sim and sim_advanced and all filters.",
+   "Input sweep of the baseline channel (honestly: generation, not fault injection); times compared relative to the first base event.", "DESIGN.md §6 C14")
+CHECKS["C15"] = ("simsut", "exploration", "deterministic simulation: conservation and causality oracle over the returned trace of seeded two-party simulations with machines, delays and bottlenecks",
+   "For every simulated run: time order, k-th receive >= k-th send + delay per direction and kind (existence of a perfect causal matching), no creation of normal packets, equality with the input share when the run ended by itself.",
+   "The repo's network model has no loss, so none is injected; 'ended by itself' derived from the configured bounds.", "DESIGN.md §6 C15")
+CHECKS["C19"] = ("simsut", "exploration", "deterministic simulation: replay determinism of seeded runs, filter-projection differential, crash/hang containment per case",
+   "Each seeded case is simulated repeatedly from fresh queues (different real start instants) and must give identical traces; filtered outputs must be sub-sequences of the unfiltered run; any panic/abort/hang or bound overrun is a violation.",
+   "Hang = 2 s CPU per case; integration delays never enabled.", "DESIGN.md §6 C19")
 NOT_YET = {}
 NA = {
  "C12": "pure predicate over one machine value: no history, clock, random draw, interleaving or stored-byte fault takes part in deciding whether validation accepts a value; deciding it is input generation (property-based testing), not deterministic simulation (DESIGN.md §7)",
